@@ -41,10 +41,15 @@ class FixedUrandom:
                 return self.values.pop(0)
             return self.orig(n)
         os.urandom = ur
+        import secrets
+        self.orig_tb = secrets.token_bytes
+        secrets.token_bytes = lambda n=32: ur(n)      # the same draw, should the wrapper use `secrets`
         return self
 
     def __exit__(self, *a):
         os.urandom = self.orig
+        import secrets
+        secrets.token_bytes = self.orig_tb
 
 
 def pad(m):
